@@ -15,6 +15,7 @@ import (
 	"fmt"
 	"math/rand"
 	"os"
+	"strings"
 	"sync"
 	"sync/atomic"
 	"time"
@@ -276,6 +277,11 @@ func runScenario(scn int, sc Scenario, tw *vh.TraceWriter, res *vh.Result) {
 	followed, desync, remaining := sched.Stats()
 	res.Count("script_steps_followed", int64(followed))
 	res.Count("script_steps_desync", int64(desync+remaining))
+	for _, k := range sched.Skipped {
+		if i := strings.Index(k, "@"); i >= 0 {
+			res.Count("desync@"+strings.SplitN(k[i+1:], ":", 2)[0], 1)
+		}
+	}
 	res.Count("exports", atomic.LoadInt64(&exp.exports))
 	// quiescent only if everybody returned; a late export by a leaked goroutine would otherwise be misjudged
 	tw.Emit(map[string]any{"ev": "EndScenario", "sc": scn, "quiescent": len(blocked) == 0, "blocked": blocked})
